@@ -2,6 +2,7 @@
 
 #define FILENAME(line) FILENAME_FOR_EXCEPTIONS("src/libawkward/forth/ForthMachine.cpp", line)
 
+#include <type_traits>
 #include <sstream>
 #include <stdexcept>
 #include <chrono>
@@ -3536,6 +3537,12 @@ namespace awkward {
               }
               // Forth (gforth, at least) does floor division; C++ does integer division.
               // This makes a difference for negative numerator or denominator.
+              if (pair[1] == -1) {
+                // The quotient of the most negative integer and -1 is not representable
+                // (the division traps on x86): wrap around, as negation does.
+                pair[0] = (T)(0 - (typename std::make_unsigned<T>::type)pair[0]);
+                break;
+              }
               T tmp = pair[0] / pair[1];
               pair[0] = tmp * pair[1] == pair[0] ? tmp : tmp - ((pair[0] < 0) ^ (pair[1] < 0));
               break;
@@ -3553,7 +3560,13 @@ namespace awkward {
               }
               // Forth (gforth, at least) does modulo; C++ does remainder.
               // This makes a difference for negative numerator or denominator.
-              pair[0] = (pair[1] + (pair[0] % pair[1])) % pair[1];
+              if (pair[1] == -1) {
+                pair[0] = 0;
+                break;
+              }
+              // Adding the divisor only when the remainder has the other sign cannot overflow.
+              T rem = pair[0] % pair[1];
+              pair[0] = (rem != 0  &&  ((rem < 0) != (pair[1] < 0))) ? rem + pair[1] : rem;
               break;
             }
 
@@ -3569,11 +3582,17 @@ namespace awkward {
                 return;
               }
               // See notes on division and modulo/remainder above.
+              if (two == -1) {
+                stack_buffer_[stack_depth_ - 1] = (T)(0 - (typename std::make_unsigned<T>::type)one);
+                stack_buffer_[stack_depth_ - 2] = 0;
+                break;
+              }
               T tmp = one / two;
+              T rem = one % two;
               stack_buffer_[stack_depth_ - 1] =
                   tmp * two == one ? tmp : tmp - ((one < 0) ^ (two < 0));
               stack_buffer_[stack_depth_ - 2] =
-                  (two + (one % two)) % two;
+                  (rem != 0  &&  ((rem < 0) != (two < 0))) ? rem + two : rem;
               break;
             }
 
